@@ -5,11 +5,20 @@ tie (corr.tokens.*): the real `encode`, `decode(torch.tensor(encode))`, `encode_
 colour-swapped twin of every position (built here with the real classes).
 search: the decidable predicates the theorems of Props/C06.lean are stated with
 (`roundTripVerdict`, `twinOK`, byte range, `batchVerdict`, same-triple for collisions) are
-evaluated BY THE DRIVER on the implementation's outputs.  No oracle lives in this file."""
+evaluated BY THE DRIVER on the implementation's outputs.  No oracle lives in this file.
+
+State across calls is part of the tie: every value the implementation returns (the list from
+`encode`, the position from `decode`, the (tensor, mask) pair from `encode_batch`) is RETAINED
+together with a snapshot taken at return time; later calls of other shapes follow (larger then
+smaller, smaller then larger, equal, other include_sentinel, empty), the same board is encoded
+with the other side to move and then again, and at the end every retained value must still be
+what it was and must still satisfy the driver's predicate (`result-mutated-by-later-call`)."""
 import itertools
+import json
+import subprocess
 
 from ..check import Divergence, Violation
-from ..lib import driver, gen, ser
+from ..lib import driver, env, gen, ser
 
 ID = "C06"
 LEAN_MODULES = ["TakVerif.Props.C06"]
@@ -20,7 +29,10 @@ RULE = (
     "with at most K pieces (K=2 quick, 3 thorough) x side to move x 3 reserve settings. One evaluation = one "
     "(position, sentinel flag) run through encode (+ decode of the result, + encode of the colour-swapped twin) or one "
     "batch run through encode_batch, each compared with the Lean model. Non-trivial = the position has at least one "
-    "piece (encode/decode), or the batch has two different row lengths; distinct by position text + flag."
+    "piece (encode/decode), or the batch has two different row lengths; distinct by position text + flag. "
+    "Every position is followed by its sibling (same board and reserves, other side to move) and by itself again; "
+    "every returned list / position / (tensor, mask) is held until the end of the run and re-checked after all later calls "
+    "(batch sessions: larger-then-smaller, smaller-then-larger, equal shape, other sentinel flag, empty)."
 )
 TRUSTED = [
     "modelled, not verified: torch.tensor(list of ints) / Tensor.__getitem__ / slice assignment / .numpy() / "
@@ -54,34 +66,80 @@ def rows_str(rows):
     return ";".join(toks_str(r) for r in rows) if len(rows) else "."
 
 
-def impl_encode(pos, s):
+class Held:
+    """a value the implementation returned, kept alive, with its text at return time"""
+
+    __slots__ = ("kind", "obj", "snap", "call")
+
+    def __init__(self, kind, obj, snap, call):
+        self.kind, self.obj, self.snap, self.call = kind, obj, snap, call
+
+    def now(self):
+        """the text of the held object as it is now"""
+        try:
+            if self.kind == "encode":
+                return toks_str(self.obj)
+            if self.kind == "decode":
+                return "ok " + ser.pos_str(self.obj)
+            return batch_text(*self.obj)
+        except Exception as e:
+            return "unreadable " + type(e).__name__
+
+
+# every implementation call of this process, in order (the replay of a state-dependent failure)
+CALLS = []
+HELD = []
+
+
+def _log(call, kind, obj, snap):
+    CALLS.append(call)
+    if obj is not None:
+        HELD.append(Held(kind, obj, snap, len(CALLS) - 1))
+
+
+def batch_text(out, mask):
+    import torch
+
+    return rows_str(out.tolist()) + " | " + rows_str(mask.to(torch.int).tolist())
+
+
+def impl_encode(pos, s, ps=None):
     """(canonical text, token list | None)"""
+    call = {"op": "encode", "pos": ps if ps is not None else ser.pos_str(pos), "sentinel": int(s)}
     try:
-        ts = _enc().encode(pos, bool(s))
-        ts = [int(t) for t in ts]
+        raw = _enc().encode(pos, bool(s))
+        ts = [int(t) for t in raw]
     except Exception as e:
+        _log(call, "encode", None, None)
         return "crash " + type(e).__name__, None
+    _log(call, "encode", raw, toks_str(ts))
     return toks_str(ts), ts
 
 
 def impl_decode(ts):
     import torch
 
+    call = {"op": "decode", "tokens": toks_str(ts)}
     try:
         q = _enc().decode(torch.tensor(ts))
-        return "ok " + ser.pos_str(q)
+        out = "ok " + ser.pos_str(q)
     except Exception:
+        _log(call, "decode", None, None)
         return "err"
+    _log(call, "decode", q, out)
+    return out
 
 
-def impl_batch(poss, s):
-    import torch
-
+def impl_batch(poss, s, pss=None):
+    call = {"op": "encode_batch", "batch": pss if pss is not None else [ser.pos_str(p) for p in poss], "sentinel": int(s)}
     try:
         out, mask = _enc().encode_batch(poss, bool(s))
-        return rows_str(out.tolist()) + " | " + rows_str(mask.to(torch.int).tolist())
+        text = batch_text(out, mask)
     except Exception as e:
+        _log(call, "encode_batch", None, None)
         return "crash " + type(e).__name__
+    _log(call, "encode_batch", (out, mask), text)
+    return text
 
 
 def twin_of(pos):
@@ -92,6 +150,13 @@ def twin_of(pos):
 
     board = [[pieces.Piece.cached(pc.color.flip(), pc.kind) for pc in sq] for sq in pos.board]
     return tak.Position(size=pos.size, stones=(pos.stones[1], pos.stones[0]), ply=pos.ply + 1, board=board)
+
+
+def sibling_of(pos):
+    """same board, same reserves, the other side to move"""
+    import tak
+
+    return tak.Position(size=pos.size, stones=pos.stones, ply=pos.ply + 1, board=pos.board)
 
 
 def with_reserves(pos, ws, wc, bs, bc, ply=None):
@@ -228,17 +293,17 @@ def small_positions(kmax):
 
 
 class PosCase:
-    __slots__ = ("label", "ps", "s", "enc", "enc_toks", "dec", "twin_ps", "enc_twin", "enc_twin_toks", "encwf")
+    __slots__ = ("label", "ps", "s", "enc", "enc_toks", "dec", "twin_ps", "enc_twin", "enc_twin_toks", "encwf", "call")
 
     def key(self):
         return (self.ps, self.s)
 
 
 class BatchCase:
-    __slots__ = ("poss", "s", "rows", "out")
+    __slots__ = ("poss", "s", "rows", "out", "call")
 
 
-_STATE = {"pos": [], "batch": [], "small": []}
+_STATE = {"pos": [], "batch": [], "small": [], "mutated": []}
 
 
 def observe_position(label, pos, s, ps=None, want_decode=True, want_twin=True):
@@ -246,14 +311,15 @@ def observe_position(label, pos, s, ps=None, want_decode=True, want_twin=True):
     c.label = label
     c.ps = ps if ps is not None else ser.pos_str(pos)
     c.s = s
-    c.enc, c.enc_toks = impl_encode(pos, s)
+    c.enc, c.enc_toks = impl_encode(pos, s, c.ps)
     c.dec = impl_decode(c.enc_toks) if (want_decode and c.enc_toks is not None) else None
     c.twin_ps = c.enc_twin = c.enc_twin_toks = None
     if want_twin:
         tw = twin_of(pos)
         c.twin_ps = ser.pos_str(tw)
-        c.enc_twin, c.enc_twin_toks = impl_encode(tw, s)
+        c.enc_twin, c.enc_twin_toks = impl_encode(tw, s, c.twin_ps)
     c.encwf = None
+    c.call = len(CALLS) - 1
     return c
 
 
@@ -269,8 +335,9 @@ def observe_batch(poss, s):
     b = BatchCase()
     b.poss = [ser.pos_str(p) for p in poss]
     b.s = s
-    b.rows = [impl_encode(p, s)[1] for p in poss]
-    b.out = impl_batch(poss, s)
+    b.rows = [impl_encode(p, s, ps)[1] for p, ps in zip(poss, b.poss)]
+    b.out = impl_batch(poss, s, b.poss)
+    b.call = len(CALLS) - 1
     return b
 
 
@@ -282,19 +349,30 @@ def tie(ctx):
     rng = ctx.rng
     divs = []
     cases = []
-    pool = []  # positions inside the domain, for batches
+    pool = []  # (position, its include_sentinel=1 case), for batches
     for label, pos in _positions(ctx):
         ctx.count("pos:" + label)
         ctx.count("pos:size%d" % pos.size)
+        first = len(cases)
         for s in (1, 0):
             cases.append(observe_position(label, pos, s))
-        pool.append(pos)
+        pool.append((pos, cases[first]))
+        if label != "vocab":  # (the vocabulary sweep already visits every board with both movers)
+            # state across calls: the same board and reserves with the OTHER side to move, then
+            # the position itself once more
+            sib = sibling_of(pos)
+            for s in (1, 0):
+                cases.append(observe_position("sibling", sib, s))
+            for s in (1, 0):
+                cases.append(observe_position("again", pos, s))
+            ctx.count("pos:sibling+again")
     fill_encwf(cases)
     _STATE["pos"] = cases
 
     # the twin built here must be the twin the theorem speaks about (machinery self-check)
-    swaps = driver.run_lines(["tokens swap " + c.ps for c in cases[::2]])
-    for c, o in zip(cases[::2], swaps):
+    firsts = [c for c in cases if c.s == 1]
+    swaps = driver.run_lines(["tokens swap " + c.ps for c in firsts])
+    for c, o in zip(firsts, swaps):
         if o != c.twin_ps:
             raise RuntimeError("harness twin %r differs from swapColours %r for %r" % (c.twin_ps, o, c.ps))
 
@@ -345,7 +423,8 @@ def tie(ctx):
     ]
 
     # ---- batches: shuffled, mixed sizes, adversarial length orders
-    ok_pool = [p for p, c in zip(pool, cases[::2]) if c.enc_toks is not None]
+    ok_pool = [p for p, c in pool if c.enc_toks is not None]
+    enc_len = {id(p): len(c.enc_toks) for p, c in pool if c.enc_toks is not None}
     batches = []
     nb = 1500 if ctx.thorough else 300
     for k in range(nb):
@@ -353,17 +432,42 @@ def tie(ctx):
         poss = [rng.choice(ok_pool) for _ in range(n)]
         mode = k % 5
         if mode == 1:
-            poss.sort(key=lambda p: len(_enc().encode(p)))  # every row widens
+            poss.sort(key=lambda p: enc_len[id(p)])  # every row widens
         elif mode == 2:
-            poss.sort(key=lambda p: -len(_enc().encode(p)))  # never widens after row 0
+            poss.sort(key=lambda p: -enc_len[id(p)])  # never widens after row 0
         elif mode == 3 and n >= 2:
-            poss.sort(key=lambda p: len(_enc().encode(p)))
+            poss.sort(key=lambda p: enc_len[id(p)])
             poss[0], poss[-1] = poss[-1], poss[0]  # longest first, shortest last
         elif mode == 4 and n >= 2:
             poss[-1] = poss[0]  # equal lengths present
         else:
             rng.shuffle(poss)
         batches.append(observe_batch(poss, rng.choice([0, 1])))
+    # sessions of calls whose results are all held: a batch, then a smaller one (fewer rows AND
+    # narrower), a larger one, one of equal shape, the same positions with the other flag, the
+    # empty batch, a single position, and the first batch again
+    by_len = sorted(ok_pool, key=lambda p: enc_len[id(p)])
+    for k in range(120 if ctx.thorough else 30):
+        n = rng.choice([2, 3, 4, 6, 9])
+        base = [rng.choice(ok_pool) for _ in range(n)]
+        s = rng.choice([0, 1])
+        width = max(enc_len[id(p)] for p in base)
+        narrower = [p for p in by_len if enc_len[id(p)] <= width] or base
+        session = [
+            (base, s),
+            ([rng.choice(narrower) for _ in range(rng.randrange(1, n + 1))], s),
+            (base + [rng.choice(ok_pool) for _ in range(rng.randrange(1, 5))] + [by_len[-1 - rng.randrange(3)]], s),
+            (rng.sample(base, n), s),
+            (base, 1 - s),
+            ([], s),
+            ([rng.choice(narrower)], rng.choice([0, 1])),
+            (base, s),
+        ]
+        if k % 2:
+            session[1], session[2] = session[2], session[1]  # larger first, then smaller
+        for poss, ss in session:
+            batches.append(observe_batch(list(poss), ss))
+        ctx.count("batch:sessions(held results, 8 calls each)")
     _STATE["batch"] = batches
     outs = driver.run_lines(["tokens batch " + rows_str(b.rows) for b in batches])
     for b, mo in zip(batches, outs):
@@ -378,7 +482,28 @@ def tie(ctx):
     if batches:
         b = batches[min(3, len(batches) - 1)]
         ctx.sample({"batch": b.poss, "sentinel": b.s, "out|mask": b.out})
+
+    # ---- every value returned during this run is still held: it must still be what it was
+    mutated = changed_held(HELD)
+    _STATE["mutated"] = mutated
+    for kind in ("encode", "decode", "encode_batch"):
+        ctx.count("held:%s results re-checked at the end" % kind, sum(1 for h in HELD if h.kind == kind))
+    ctx.evaluated(len(HELD))
+    for h, now in mutated:
+        divs.append(
+            Divergence("corr.tokens.held", {"held_call": h.call, "call": CALLS[h.call]}, now, "(a returned value does not change) " + h.snap)
+        )
     return divs
+
+
+def changed_held(held):
+    """[(held, text now)] for every retained result that no longer reads as it did at return time"""
+    out = []
+    for h in held:
+        now = h.now()
+        if now != h.snap:
+            out.append((h, now))
+    return out
 
 
 # ---------------------------------------------------------------------------------------------
@@ -528,11 +653,17 @@ def search(ctx, divergences, broken):
                 c, _, text = h
         except Exception:
             pass
+        c0 = lst[0][0]
+        rp, how = confirmed_replay(
+            key,
+            [{"kind": "position", "pos": c.ps, "sentinel": c.s}, {"kind": "position", "pos": c0.ps, "sentinel": c0.s}]
+            + sequence_candidates(cases, c0),
+        )
         vs.append(
             Violation(
                 key,
-                "pos=[%s] include_sentinel=%d: %s (%d such cases in this run)" % (c.ps, c.s, text, len(lst)),
-                {"kind": "position", "pos": c.ps, "sentinel": c.s},
+                "pos=[%s] include_sentinel=%d: %s (%d such cases in this run)%s" % (c.ps, c.s, text, len(lst), how),
+                rp,
             )
         )
     # collisions: the generated positions and the small-board space (quick: <= 2 pieces; thorough: <= 3)
@@ -574,11 +705,154 @@ def search(ctx, divergences, broken):
                 {"kind": "batch", "batch": b.poss, "sentinel": b.s},
             )
         )
+    # results that a later call changed
+    mutated = _STATE.get("mutated") or []
+    explained_held = set()
+    if mutated:
+        by_call = {b.call: b for b in _STATE["batch"]}
+        lines, meta = [], []
+        for h, now in mutated:
+            explained_held.add(h.call)
+            b = by_call.get(h.call)
+            if h.kind == "encode_batch" and b is not None and " | " in now and all(r is not None for r in b.rows):
+                out, mask = now.split(" | ")
+                lines.append("tokens batchok %s %s %s" % (rows_str(b.rows), out, mask))
+                meta.append(h.call)
+        verdict = dict(zip(meta, driver.run_lines(lines)))
+        mutated.sort(key=lambda hn: (len(hn[0].snap), hn[0].call))
+        h, now = mutated[0]
+        rp, how = confirmed_replay("result-mutated-by-later-call", held_candidates(h))
+        vs.append(
+            Violation(
+                "result-mutated-by-later-call",
+                "the value returned by call #%d %s was [%s] at return time and reads [%s] after later calls%s "
+                "(%d retained results changed in this run)%s"
+                % (
+                    h.call,
+                    json.dumps(CALLS[h.call]),
+                    h.snap,
+                    now,
+                    (": the driver's batch predicate on it now says '%s'" % verdict[h.call]) if h.call in verdict else "",
+                    len(mutated),
+                    how,
+                ),
+                rp,
+            )
+        )
     for d in divergences:
+        if "held_call" in d.input and d.input["held_call"] in explained_held:
+            d.explained = True
         if "pos" in d.input and (d.input["pos"], d.input["sentinel"]) in explained_pos:
             d.explained = True
         if "batch" in d.input and (tuple(d.input["batch"]), d.input["sentinel"]) in explained_batch:
             d.explained = True
+    return vs
+
+
+# ---------------------------------------------------------------------------------------------
+# replays that depend on what the process did before: call sequences, confirmed in a fresh process
+
+_FRESH = """
+import json, sys
+from harness.lib import env
+env.setup_impl_path(None)
+from harness.props import c06
+vs = c06.replay(None, json.load(sys.stdin))
+print("RESULT " + json.dumps([v.key for v in vs]))
+"""
+
+
+def fresh_keys(rp, timeout=600):
+    """run a replay in a NEW interpreter (no state left over from this run); the keys it reports"""
+    r = subprocess.run(
+        [env.PYTHON, "-c", _FRESH], cwd=env.VERIF, input=json.dumps({"replay": rp}).encode(), stdout=subprocess.PIPE, stderr=subprocess.PIPE, timeout=timeout
+    )
+    for line in r.stdout.decode().splitlines():
+        if line.startswith("RESULT "):
+            return json.loads(line[7:])
+    raise RuntimeError("fresh replay failed: " + r.stderr.decode(errors="replace")[-1500:])
+
+
+def confirmed_replay(key, candidates, limit=5):
+    """the first candidate replay that shows `key` again in a fresh process"""
+    tried = 0
+    for rp in candidates:
+        if tried >= limit:
+            break
+        tried += 1
+        try:
+            if key in fresh_keys(rp):
+                return rp, "" if rp.get("kind") != "calls" else " [state-dependent: the replay is the sequence of %d calls]" % len(rp["calls"])
+        except Exception:
+            continue
+    return candidates[-1], " [not reproduced in a fresh process by %d shorter replays; replay = the longest call sequence tried]" % tried
+
+
+def sequence_candidates(cases, c):
+    """call sequences ending in the observation of `c`: the cases observed just before it"""
+    i = cases.index(c)
+    out = []
+    for back in (1, 2, 4, 8):
+        seq = [{"op": "position", "pos": x.ps, "sentinel": x.s} for x in cases[max(0, i - back) : i + 1]]
+        out.append({"kind": "calls", "calls": seq})
+    out.append({"kind": "calls", "calls": CALLS[: c.call + 1] + [{"op": "position", "pos": c.ps, "sentinel": c.s}]})
+    return out
+
+
+def _shape(call):
+    b = call.get("batch", [])
+    return len(b), max([len(x) for x in b] or [0])
+
+
+def held_candidates(h):
+    """call sequences that start with the call whose result is held, followed by later calls"""
+    first = CALLS[h.call]
+    later = CALLS[h.call + 1 :]
+    same = [c for c in later if c["op"] == first["op"]]
+    picks = []
+    if first["op"] == "encode_batch":
+        n, w = _shape(first)
+        fits = [c for c in same if _shape(c)[0] <= n and _shape(c)[1] <= w and _shape(c)[0] > 0]
+        picks += fits[:1] + same[:1] + [c for c in same if _shape(c)[0] >= n and _shape(c)[1] >= w][:1]
+    else:
+        picks += later[:1] + same[:1]
+    out = [{"kind": "calls", "calls": [first, c]} for c in picks]
+    if same:
+        out.append({"kind": "calls", "calls": [first] + same[:8]})
+    out.append({"kind": "calls", "calls": [first] + later[:200]})
+    out.append({"kind": "calls", "calls": CALLS[: h.call + 1] + later[:2000]})
+    return out
+
+
+def replay_calls(r):
+    """run a call sequence with every result held; all C06 predicates on what was observed"""
+    vs = []
+    h0, cases, batches = len(HELD), [], []
+    for call in r["calls"]:
+        op, s = call["op"], int(call.get("sentinel", 1))
+        if op == "position":
+            cases.append(_reobserve(call["pos"], s))
+        elif op == "encode":
+            impl_encode(ser.parse_pos(call["pos"].split(" ")), s, call["pos"])
+        elif op == "decode":
+            impl_decode([] if call["tokens"] == "-" else [int(x) for x in call["tokens"].split(",")])
+        elif op == "encode_batch":
+            batches.append(observe_batch([ser.parse_pos(ps.split(" ")) for ps in call["batch"]], s))
+    for h, now in changed_held(HELD[h0:]):
+        vs.append(
+            Violation(
+                "result-mutated-by-later-call",
+                "the value returned by %s was [%s] at return time and reads [%s] after the later calls of the sequence"
+                % (json.dumps(CALLS[h.call]), h.snap, now),
+                r,
+            )
+        )
+    for c, key, text in position_failures(cases):
+        vs.append(Violation(key, "pos=[%s] include_sentinel=%d: %s" % (c.ps, c.s, text), r))
+    for x, y in collisions(cases):
+        vs.append(Violation("collision", "distinct positions [%s] and [%s] both encode to %s" % (x.ps, y.ps, x.enc), r))
+    for b, key in batch_failures(batches):
+        vs.append(Violation(key, "encode_batch gives [%s] for rows [%s]" % (b.out, rows_str(b.rows)), r))
     return vs
 
 
@@ -587,6 +861,8 @@ def replay(ctx, data):
     kind = r.get("kind", "position")
     s = int(r.get("sentinel", 1))
     vs = []
+    if kind == "calls":
+        return replay_calls(r)
     if kind == "position":
         c = _reobserve(r["pos"], s)
         for c, key, text in position_failures([c]):
